@@ -102,6 +102,11 @@ def reconstruct {β} (sizeOf : Nat → Option Nat) (zero : β) :
       let r := reconstruct sizeOf zero s' bs
       (y.toList ++ r.1, r.2)
 
+/-- the batches of one volume `f` whose processed slices are delivered as the consecutive pieces `ps`
+(every batch element carries the volume's filename) -/
+def volBatches {β} (f : Nat) (ps : List (List β)) : List (RBatch β) :=
+  ps.map fun p => ⟨List.replicate p.length f, p⟩
+
 /-! ## `_process_output` -/
 
 /-- a 2-D image as rows -/
